@@ -6,3 +6,11 @@ pub mod e_hashmap;
 pub mod e_handletable;
 pub mod e_stacks;
 pub mod e_module;
+pub mod dval;
+pub mod refsem;
+pub mod vmrun;
+pub mod gen;
+pub mod gen_closure;
+pub mod shrink;
+pub mod e_prog;
+pub mod pp;
